@@ -1633,3 +1633,76 @@ pub mod c02_api {
             .collect()
     }
 }
+
+/// Verification hooks of property C16, element-level part (see
+/// `verif_hooks/c16.rs`, `ProbeElem`): entry points to the crate-private
+/// script-side operations for lists of any element type. (Nothing here names
+/// the type of the lock.)
+#[cfg(feature = "verif-hooks")]
+pub mod c16_elem_api {
+    use std::mem::ManuallyDrop;
+    use std::ptr::NonNull;
+    use std::sync::Arc;
+
+    use super::{ErasedList, boundary::List};
+    use crate::verif_hooks::c16::ProbeElem;
+    use crate::{Val, Value};
+
+    /// identity of the list's lock (what the schedule points report as
+    /// `lock_id`)
+    pub fn lock_id_of<T: Value>(l: &List<T>) -> usize {
+        Arc::as_ptr(&l.erased().0) as *const () as usize
+    }
+
+    /// the script-side `==` (`ErasedList::eq`)
+    pub fn erased_eq_of<T: Value>(a: &List<T>, b: &List<T>) -> bool {
+        a.erased() == b.erased()
+    }
+
+    /// the script-side `get` (`ffi::list_get`) on a list of probe elements:
+    /// the two halves of the clone it wrote
+    pub fn ffi_get_probe(
+        l: &List<Val<ProbeElem>>,
+        idx: u64,
+    ) -> Option<(u64, u64)> {
+        #[repr(C, align(8))]
+        struct Out([u8; 24]);
+        let mut out = Out([0xAA; 24]);
+        let this: ErasedList = l.erased().clone();
+        // SAFETY: `out` is aligned to 8 and large enough for
+        // `RotoOption<Val<ProbeElem>>` (discriminant byte, value at offset
+        // 8, 16 bytes); `this` is a valid list of that element type.
+        unsafe { super::ffi::list_get(out.0.as_mut_ptr().cast(), this, idx) };
+        match out.0[0] {
+            0 => Some((
+                u64::from_ne_bytes(out.0[8..16].try_into().unwrap()),
+                u64::from_ne_bytes(out.0[16..24].try_into().unwrap()),
+            )),
+            _ => None,
+        }
+    }
+
+    /// the script-side `contains` (`ErasedList::contains_owned`)
+    pub fn contains_owned_probe(l: &List<Val<ProbeElem>>, v: u64) -> bool {
+        let mut item = ManuallyDrop::new(Val(ProbeElem::new(v)));
+        // SAFETY: `item` is a valid element, handed over (never dropped
+        // here).
+        unsafe {
+            l.erased()
+                .contains_owned(NonNull::from_mut(&mut *item).cast::<()>())
+        }
+    }
+
+    /// the script-side `index` (`ErasedList::index_owned`)
+    pub fn index_owned_probe(
+        l: &List<Val<ProbeElem>>,
+        v: u64,
+    ) -> Option<usize> {
+        let mut item = ManuallyDrop::new(Val(ProbeElem::new(v)));
+        // SAFETY: as in `contains_owned_probe`.
+        unsafe {
+            l.erased()
+                .index_owned(NonNull::from_mut(&mut *item).cast::<()>())
+        }
+    }
+}
